@@ -216,7 +216,8 @@ def tagging_parse_step(E):
     pre = E.fresh_bytes('P')
     x = E.input('tag', E.fresh_bytes('x', 0, 255))
     suf = E.fresh_bytes('S')
-    buf = W.cat(pre, enc_tag(x), suf)
+    at_end = E.path.choice(2, 'cursor-at') == 1       # 0: an encoded tag at the cursor; 1: the cursor is at the end of the buffer
+    buf = pre if at_end else W.cat(pre, enc_tag(x), suf)
     r = E.call(E.lookup(X + 'routing.py::RoutingMetadata'), [])
     st = {}
 
@@ -229,6 +230,8 @@ def tagging_parse_step(E):
             return [('starts at 0 with no tags', ctx.local('offset', *OFFSET) == 0 and ctx.self.attrs['tags'] == [])]
         if ctx.phase == 'head':
             return []
+        if at_end:
+            return [('nothing is decoded at the end of the buffer', False)]
         E.cover('step')
         tg = ctx.self.attrs['tags']
         return [('exactly one tag decoded: the encoded one', len(tg) == 1 and beq(E, tg[0], x, 'x')),
@@ -239,6 +242,7 @@ def tagging_parse_step(E):
     E.cover('exit')
     ctx = E.path.ghost['loops'][(TP, 0)]
     E.prove('parse:exits_only_at_end_of_buffer', I(ctx.local('offset', *OFFSET)) >= lift_bytes(buf).len_term())
+    E.prove('parse:at_the_end_of_the_buffer_it_stops_without_decoding_anything', at_end and r.attrs['tags'] == [])
 
 
 @harness('c18.tagging.roundtrip.bounded', ['C18'], kind='bounded', functions=[TP, TG + '._serialize_tags'],
@@ -293,7 +297,8 @@ def stream_data_mimetypes_step(E):
     pre, suf = E.fresh_bytes('P'), E.fresh_bytes('S')
     name = custom_name(E)
     hdr = W.cat(W.be(mk_int(name.len_term() - 1), 1), name)
-    buf = W.cat(pre, hdr, suf)
+    at_end = E.path.choice(2, 'cursor-at') == 1
+    buf = pre if at_end else W.cat(pre, hdr, suf)
     it = E.call(E.lookup(SD + 'StreamDataMimetypes'), [])
 
     def havoc(ctx):
@@ -305,6 +310,8 @@ def stream_data_mimetypes_step(E):
             return [('starts at 0', ctx.local('offset', *OFFSET) == 0 and ctx.self.attrs['data_encodings'] == [])]
         if ctx.phase == 'head':
             return []
+        if at_end:
+            return [('nothing is decoded at the end of the buffer', False)]
         E.cover('step')
         de = ctx.self.attrs['data_encodings']
         return [('exactly one entry decoded: the encoded one', len(de) == 1 and beq(E, de[0], name, 'x')),
@@ -312,6 +319,9 @@ def stream_data_mimetypes_step(E):
     E.loop_specs[(SDP, 0)] = LoopSpec(inv, lambda ctx: lift_bytes(buf).len_term() - I(ctx.local('offset', *OFFSET)), havoc=havoc, modifies=['offset'])
     E.call(E.getattr(it, 'parse'), [buf])
     E.cover('exit')
+    ctx = E.path.ghost['loops'][(SDP, 0)]
+    E.prove('parse:exits_only_at_end_of_buffer', I(ctx.local('offset', *OFFSET)) >= lift_bytes(buf).len_term())
+    E.prove('parse:at_the_end_of_the_buffer_it_stops_without_decoding_anything', at_end and it.attrs['data_encodings'] == [])
 
 
 CM = X + 'composite_metadata.py::CompositeMetadata'
@@ -333,12 +343,29 @@ def composite_serialize(E):
     items = [E.call(E.lookup(H + 'metadata_item'), [body1, name]),
              E.call(E.lookup(H + 'metadata_item'), [body2, enum.members['APPLICATION_JSON']]),
              E.call(E.lookup(H + 'route'), [tag])]
-    k = E.path.choice(4, 'number-of-entries')
-    out = E.call(E.lookup(H + 'composite'), items[:k])
-    E.cover('serialized')
     encs = [W.cat(W.be(mk_int(name.len_term() - 1), 1), name, W.be(mk_int(body1.len_term()), 3), body1),
             W.cat(b'\x85', W.be(mk_int(body2.len_term()), 3), body2),
             W.cat(b'\xfe', W.be(mk_int(1 + tag.len_term()), 3), enc_tag(tag))]
+    if E.path.choice(2, 'entry-family') == 1:
+        # the other well-known entries, built by the public helpers: each goes out under its own well-known id with exactly
+        # the bytes of its own codec (c18.authentication, c18.stream_data_mimetype)
+        user, pw = E.fresh_bytes('user', 0, 65535), E.fresh_bytes('pw', 0, 1 << 16)
+        tok = E.fresh_bytes('token', 0, 1 << 16)
+        name2 = custom_name(E, 'custom2')
+        hdr2 = W.cat(W.be(mk_int(name2.len_term() - 1), 1), name2)
+        simple = W.cat(b'\x80', W.be(mk_int(user.len_term()), 2), user, pw)
+        bearer = W.cat(b'\x81', tok)
+        items = [E.call(E.lookup(H + 'authenticate_simple'), [user, pw]),
+                 E.call(E.lookup(H + 'data_mime_type'), [name2]),
+                 E.call(E.lookup(H + 'data_mime_types'), [enum.members['APPLICATION_JSON'], name2]),
+                 E.call(E.lookup(H + 'authenticate_bearer'), [tok])]
+        encs = [W.cat(b'\xfc', W.be(mk_int(lift_bytes(simple).len_term()), 3), simple),
+                W.cat(b'\xfa', W.be(mk_int(lift_bytes(hdr2).len_term()), 3), hdr2),
+                W.cat(b'\xfb', W.be(mk_int(1 + lift_bytes(hdr2).len_term()), 3), b'\x85', hdr2),
+                W.cat(b'\xfc', W.be(mk_int(lift_bytes(bearer).len_term()), 3), bearer)]
+    k = E.path.choice(len(items) + 1, 'number-of-entries')
+    out = E.call(E.lookup(H + 'composite'), items[:k])
+    E.cover('serialized')
     E.prove('composite:entries_are_header_24bit_length_body_in_order', beq(E, out, W.cat(*encs[:k]) if k else b'', 'c'))
 
 
@@ -348,9 +375,20 @@ def composite_serialize(E):
 def composite_parse_step(E):
     enum = E.lookup(MT)
     pre, suf = E.fresh_bytes('P'), E.fresh_bytes('S')
-    kind = E.path.choice(3, 'entry-kind')
+    kind = E.path.choice(7, 'entry-kind')
+    at_end = kind == 6
     body = E.input('body', E.fresh_bytes('body', 0, (1 << 24) - 1))
-    if kind == 0:
+    sub_parsed = []
+    if kind in (3, 4, 5):
+        # the other well-known entries: class chosen by the table, the item parses exactly its own body (their own codecs
+        # are under contract in c18.authentication / c18.stream_data_mimetype*)
+        hdr, want_cls, want_enc, pq = [(b'\xfc', 'AuthenticationContent', b'message/x.rsocket.authentication.v0', X + 'authentication_content.py::AuthenticationContent.parse'),
+                                       (b'\xfa', 'StreamDataMimetype', b'message/x.rsocket.mime-type.v0', SD + 'StreamDataMimetype.parse'),
+                                       (b'\xfb', 'StreamDataMimetypes', b'message/x.rsocket.accept-mime-types.v0', SDP)][kind - 3]
+        E.stubs[pq] = lambda E_, f, a, k: sub_parsed.append(a[1])
+    elif kind == 6:
+        hdr, want_cls, want_enc = b'', None, None
+    elif kind == 0:
         name = custom_name(E)
         hdr = W.cat(W.be(mk_int(name.len_term() - 1), 1), name)
         want_cls, want_enc = 'CompositeMetadataItem', name
@@ -361,7 +399,7 @@ def composite_parse_step(E):
         hdr = b'\xfe'
         want_cls, want_enc = 'RoutingMetadata', b'message/x.rsocket.routing.v0'
     entry = W.cat(hdr, W.be(mk_int(body.len_term()), 3), body)
-    buf = W.cat(pre, entry, suf)
+    buf = pre if at_end else W.cat(pre, entry, suf)
     cm = E.call(E.lookup(CM), [])
     parsed = []
     E.stubs[X + 'tagging.py::TaggingMetadata.parse'] = lambda E_, f, a, k: parsed.append(a[1])
@@ -375,6 +413,8 @@ def composite_parse_step(E):
             return [('starts at 0 with no items', ctx.local('offset', *OFFSET) == 0 and ctx.self.attrs['items'] == [])]
         if ctx.phase == 'head':
             return []
+        if at_end:
+            return [('nothing is decoded at the end of the buffer', False)]
         E.cover('step')
         its = ctx.self.attrs['items']
         out = [('exactly one item appended', len(its) == 1),
@@ -385,6 +425,8 @@ def composite_parse_step(E):
             out.append(('item encoding is the (normalised) MIME name', beq(E, it.attrs['encoding'], want_enc, 'enc')))
             if kind == 2:
                 out.append(('routing entry parses exactly its body', len(parsed) == 1 and beq(E, parsed[0], body, 'rb')))
+            elif kind in (3, 4, 5):
+                out.append(('well-known entry parses exactly its body', len(sub_parsed) == 1 and beq(E, sub_parsed[0], body, 'wb')))
             else:
                 out.append(('item content is exactly the body', beq(E, it.attrs['content'], body, 'cb')))
         return out
@@ -392,6 +434,9 @@ def composite_parse_step(E):
     r = E.call(E.getattr(cm, 'parse'), [buf])
     E.cover('exit')
     E.prove('parse:returns_self', r is cm)
+    ctx = E.path.ghost['loops'][(CMP, 0)]
+    E.prove('parse:exits_only_at_end_of_buffer', I(ctx.local('offset', *OFFSET)) >= lift_bytes(buf).len_term())
+    E.prove('parse:at_the_end_of_the_buffer_it_stops_without_decoding_anything', at_end and cm.attrs['items'] == [])
 
 
 @harness('c18.helpers', ['C18', 'C19', 'C16'], functions=[X + 'helpers.py::' + n for n in ('route', 'authenticate_simple', 'authenticate_bearer',
